@@ -299,5 +299,73 @@ func genWiring() {
 	g.line("Definition watcher_write_branch : list (list N) := %s.", coqStrList(wrBranch))
 	g.line("(* WaitForReplacement's only return sits under `if err := watcher.Add(filename); err == nil` *)")
 	g.line("Definition wait_for_replacement_rearms : bool := %v.", rearms)
+	// cookie_domains_writes: every statement in the non-test sources that sorts, assigns or appends to a cookie-domain
+	// list (<x>.Domains), as "file|function|statement" with "top-level" / "nested" for the sort in validateCookie:
+	// select_domain's theorem assumes the list is sorted longest first ONCE, by validation, and never touched again.
+	var domWrites []string
+	_ = filepath.WalkDir(*repo, func(pth string, d os.DirEntry, err error) error {
+		if err != nil {
+			return nil
+		}
+		rel, _ := filepath.Rel(*repo, pth)
+		if d.IsDir() {
+			if rel != "." && (strings.HasPrefix(d.Name(), ".") || d.Name() == "contrib" || d.Name() == "docs" || d.Name() == "out" || d.Name() == "testdata") {
+				return filepath.SkipDir
+			}
+			return nil
+		}
+		if !strings.HasSuffix(rel, ".go") || strings.HasSuffix(rel, "_test.go") {
+			return nil
+		}
+		f := parse(rel)
+		if f == nil {
+			return nil
+		}
+		ftxt := func(n ast.Node) string { return strings.Join(strings.Fields(exprText(rel, n)), "") }
+		isDomains := func(e ast.Expr) bool {
+			t := ftxt(e)
+			if i := strings.Index(t, "["); i >= 0 {
+				t = t[:i]
+			}
+			return strings.HasSuffix(t, ".Domains")
+		}
+		for _, decl := range f.Decls {
+			fd, ok := decl.(*ast.FuncDecl)
+			if !ok || fd.Body == nil {
+				continue
+			}
+			top := map[ast.Stmt]bool{}
+			for _, st := range fd.Body.List {
+				top[st] = true
+			}
+			ast.Inspect(fd.Body, func(n ast.Node) bool {
+				switch x := n.(type) {
+				case *ast.ExprStmt:
+					c, ok := x.X.(*ast.CallExpr)
+					if !ok || len(c.Args) == 0 {
+						return true
+					}
+					if sel, ok := c.Fun.(*ast.SelectorExpr); ok && ftxt(sel.X) == "sort" && isDomains(c.Args[0]) {
+						where := "nested"
+						if top[x] {
+							where = "top-level"
+						}
+						domWrites = append(domWrites, rel+"|"+fd.Name.Name+"|"+where+"|"+ftxt(x))
+					}
+				case *ast.AssignStmt:
+					for _, l := range x.Lhs {
+						if isDomains(l) {
+							domWrites = append(domWrites, rel+"|"+fd.Name.Name+"|assign|"+ftxt(x))
+						}
+					}
+				}
+				return true
+			})
+		}
+		return nil
+	})
+	sort.Strings(domWrites)
+	g.line("(* every sort of / assignment to a <x>.Domains list in the non-test sources *)")
+	g.line("Definition cookie_domains_writes : list (list N) := %s.", coqStrList(domWrites))
 	g.write("Wiring.v")
 }
